@@ -2075,8 +2075,7 @@ pub fn array_values(
         .set_property(index_key, JsValue::Number(0.0));
 
     // Add next() method
-    let next_fn = interp.create_native_function("next", array_iterator_next, 0);
-    guard.guard(next_fn.cheap_clone());
+    let next_fn = interp.create_native_function_with_guard(&guard, "next", array_iterator_next, 0);
     iter_obj
         .borrow_mut()
         .set_property(next_key, JsValue::Object(next_fn));
@@ -2086,8 +2085,8 @@ pub fn array_values(
     let iterator_symbol =
         crate::value::JsSymbol::new(well_known.iterator, Some(interp.intern("Symbol.iterator")));
     let iterator_key = PropertyKey::Symbol(Box::new(iterator_symbol));
-    let self_fn = interp.create_native_function("[Symbol.iterator]", return_this, 0);
-    guard.guard(self_fn.cheap_clone());
+    let self_fn =
+        interp.create_native_function_with_guard(&guard, "[Symbol.iterator]", return_this, 0);
     iter_obj
         .borrow_mut()
         .set_property(iterator_key, JsValue::Object(self_fn));
